@@ -49,10 +49,45 @@ def expected(N, entry):
     return KNOWN_COUNTS.get((N, entry))
 
 
+# input blocks named inside the name generator's own namespace (indices with different numbers of digits included:
+# "10" < "9" as strings)
+NAME_SCHEMES = [
+    ["synth_asign_block_0", "synth_exit_latch_block_0", "synth_return_block_0", "loop_region_0", "synth_head_block_0"],
+    ["synth_asign_block_9", "synth_asign_block_10", "synth_exit_latch_block_10", "synth_asign_block_11", "loop_region_10"],
+    ["head_region_9", "head_region_10", "synth_tail_block_10", "synth_exit_block_10", "branch_region_10"],
+    ["synth_asign_block_2", "synth_asign_block_10", "synth_head_block_9", "synth_head_block_10", "tail_region_10"],
+]
+
+
+def namespace_job(tier, harness, N=4):
+    import z3
+    from vf.runner import Job
+
+    def space():
+        f, cubes, aux = s1_space(N, entry=0 if tier == "quick" else None)
+        sc = z3.Int("scheme")
+        aux["scheme"] = sc
+        return z3.And(f, sc >= 0, sc < len(NAME_SCHEMES)), [sc] + cubes, aux
+
+    def h(E, ctx, aux):
+        d = realise_s1(E, aux)
+        sc = E.realize(aux["scheme"])
+        m = {f"b{i}": NAME_SCHEMES[sc][i] for i in range(N)}
+        desc = {"names": [m[n] for n in d["names"]], "succ": [[m[t] for t in s] for s in d["succ"]]}
+        ctx.current = desc
+        ctx.feature(f"name-scheme:{sc}")
+        harness(E, ctx, aux, desc)
+
+    return Job("S1-N4-names-in-generator-namespace", space, h,
+               bounds={"space": "S1", "blocks": N, "name_schemes": NAME_SCHEMES, "entry": "b0" if tier == "quick" else "any"}, budget_s=900)
+
+
 def s1_jobs(tier, harness, quick_n5_max_edges=None, with_routes=True):
     """The standard S1 job list.  harness(E, ctx, aux, desc)."""
     mk = s1_job_maker(harness)
-    return _s1_jobs(tier, mk, quick_n5_max_edges, with_routes)
+    js = _s1_jobs(tier, mk, quick_n5_max_edges, with_routes)
+    js.insert(2, namespace_job(tier, harness))
+    return js
 
 
 def s1_job_maker(harness):
@@ -105,8 +140,8 @@ def _s1_jobs(tier, mk, quick_n5_max_edges, with_routes):
     # numeric strings: what the source front end and the repository's own YAML fixtures use as block names
     jobs.append(mk("S1-N4-all-entries-numeric-names", 4, None, exp=expected(4, None), prefix=""))
     # histories: the graph is written to a dictionary / YAML and read back between two stages
-    RELOADS = ["reload@1", "reload@2", "yreload@2"]
-    BOTH = ["direct", "reload@2"] if with_routes else None
+    RELOADS = ["reload@1", "reload@2", "yreload@2", "alias@2"]
+    BOTH = ["direct", "reload@2", "alias@2"] if with_routes else None
     if os.environ.get("VERIF_PROBE"):
         jobs.append(mk("probe-counters", 5, 0, counters=[int(x) for x in os.environ["VERIF_PROBE"].split(",")]))
     if with_routes:
@@ -115,11 +150,11 @@ def _s1_jobs(tier, mk, quick_n5_max_edges, with_routes):
         jobs.append(mk("F7dag-N7-entry-b0-forward-edges", 7, 0, dag=True, budget=1200.0, required=False))
     if tier == "quick":
         if quick_n5_max_edges is None:
-            jobs.append(mk("S1-N5-entry-b0" + ("-direct-and-reloaded-after-loops" if BOTH else ""), 5, 0, exp=expected(5, 0), routes=BOTH))
+            jobs.append(mk("S1-N5-entry-b0" + ("-direct-reloaded-aliased" if BOTH else ""), 5, 0, exp=expected(5, 0), routes=BOTH))
         else:
             jobs.append(mk(f"S1-N5-entry-b0-le{quick_n5_max_edges}-edges", 5, 0, max_edges=quick_n5_max_edges))
     else:
-        jobs.append(mk("S1-N5-all-entries" + ("-direct-and-reloaded-after-loops" if BOTH else ""), 5, None, exp=expected(5, None), budget=3000.0, routes=BOTH))
+        jobs.append(mk("S1-N5-all-entries" + ("-direct-reloaded-aliased" if BOTH else ""), 5, None, exp=expected(5, None), budget=3000.0, routes=BOTH))
         jobs.append(mk("S1-N5-entry-b0-z-names", 5, 0, exp=expected(5, 0), prefix="z"))
         jobs.append(mk("F6-N6-entry-b0-le7-edges", 6, 0, max_edges=7, budget=600.0, required=False))
         for nm, sk in (("id", [0, 1, 2, 3, 4, 5, 6]), ("rev", [0, 6, 5, 4, 3, 2, 1]), ("ilv", [0, 2, 4, 6, 1, 3, 5])):
@@ -170,11 +205,23 @@ def front_end_jobs(tier, harness):
                      {"space": "graphs of AST2SCFG over S2-ctl", "compounds<=": 3, "kinds": ["if", "ifelse", "while"], "depth<=": 2, "terminators<=": 1}))
         js.append(mk("bytecode-derived-S2-ctl-c1", lambda ch: s2.CtlGen(ch, 1, 2, 2), 2, "bytecode",
                      {"space": "graphs of ByteFlow over compiled S2-ctl", "compounds<=": 1}))
+        js.append(mk("source-derived-S2-ctl-c3-core-kinds-bare", lambda ch: s2.CtlGen(ch, 3, 2, 1, kinds=["if", "ifelse", "while"], trail="never"), 4, "source",
+                     {"space": "graphs of AST2SCFG over S2-ctl", "compounds<=": 3, "kinds": ["if", "ifelse", "while"], "depth<=": 2, "terminators<=": 1, "marker after a compound": "never"}))
+        js.append(mk("source-derived-S2-loop-in-branch-arm", lambda ch: s2.ArmLoopGen(ch), 3, "source",
+                     {"space": "graphs of AST2SCFG over S2-armloop (a loop with guarded terminators that lives in / ends one arm of a branch)"}))
+        js.append(mk("bytecode-derived-S2-loop-in-branch-arm", lambda ch: s2.ArmLoopGen(ch), 3, "bytecode",
+                     {"space": "graphs of ByteFlow over compiled S2-armloop"}))
     else:
         js.append(mk("source-derived-S2-ctl-c2-d3-t2", lambda ch: s2.CtlGen(ch, 2, 3, 2), 3, "source",
                      {"space": "graphs of AST2SCFG over S2-ctl", "compounds<=": 2, "depth<=": 3, "terminators<=": 2}, budget=1800))
         js.append(mk("source-derived-S2-ctl-c3-d3-t2", lambda ch: s2.CtlGen(ch, 3, 3, 2), 4, "source",
                      {"space": "graphs of AST2SCFG over S2-ctl", "compounds<=": 3, "depth<=": 3, "terminators<=": 2}, budget=1200, required=False))
+        js.append(mk("source-derived-S2-ctl-c3-choose-trailing-markers", lambda ch: s2.CtlGen(ch, 3, 2, 1, kinds=["if", "ifelse", "while", "for"], trail="choose"), 4, "source",
+                     {"space": "graphs of AST2SCFG over S2-ctl", "compounds<=": 3, "marker after a compound": "optional"}, budget=1200, required=False))
+        js.append(mk("source-derived-S2-loop-in-branch-arm", lambda ch: s2.ArmLoopGen(ch), 3, "source",
+                     {"space": "graphs of AST2SCFG over S2-armloop"}))
+        js.append(mk("bytecode-derived-S2-loop-in-branch-arm", lambda ch: s2.ArmLoopGen(ch), 3, "bytecode",
+                     {"space": "graphs of ByteFlow over compiled S2-armloop"}))
         js.append(mk("source-derived-S2-expr-d2", lambda ch: s2.ExprGen(ch, 2), 3, "source",
                      {"space": "graphs of AST2SCFG over S2-expr", "depth<=": 2}, budget=1200))
         js.append(mk("bytecode-derived-S2-ctl-c2-d2-t1", lambda ch: s2.CtlGen(ch, 2, 2, 1), 3, "bytecode",
